@@ -117,6 +117,7 @@ def ensure_facts(repo=None, cold=False, want_syn=True):
         finally:
             if cold:
                 shutil.rmtree(target, ignore_errors=True)
+        build_index(tmp)
         shutil.rmtree(d, ignore_errors=True)
         os.rename(tmp, d)
         info["extracted"] = True
@@ -128,20 +129,94 @@ def ensure_facts(repo=None, cold=False, want_syn=True):
     return d, info
 
 
+def build_index(d):
+    """One full pass over bodies.jsonl: byte offsets per body, the call graph
+    (with class-hierarchy expansion of dyn calls, closure-creation and fn-item
+    edges) and an inverted callee-name index, so that checks parse only the
+    bodies they look at."""
+    import gc
+    from .core import Facts
+    gc.disable()
+    try:
+        bodies = {}
+        offsets = {}
+        with open(os.path.join(d, "bodies.jsonl"), "rb") as fh:
+            pos = 0
+            for line in fh:
+                b = json.loads(line)
+                bodies[b["fn"]] = b
+                offsets[b["fn"]] = [pos, len(line)]
+                pos += len(line)
+        with open(os.path.join(d, "meta.json")) as fh:
+            meta = json.load(fh)
+        F = Facts({"bodies": bodies, "meta": meta, "syn": None})
+        cg = F.callgraph()
+        by_name = {}
+        ncalls = 0
+        for name in bodies:
+            f = F.fn(name)
+            for c in f.calls():
+                ncalls += 1
+                for nm in c.names():
+                    by_name.setdefault(nm, set()).add(name)
+        idx = {
+            "offsets": offsets,
+            "cg": {k: sorted(v) for k, v in cg.items()},
+            "by_name": {k: sorted(v) for k, v in by_name.items()},
+            "unknown_callees": F.unknown_callees,
+            "call_terminators": ncalls,
+            "files": {n: [b["file"], b["line"]] for n, b in bodies.items()},
+        }
+        with open(os.path.join(d, "index.json.tmp"), "w") as fh:
+            json.dump(idx, fh)
+        os.rename(os.path.join(d, "index.json.tmp"), os.path.join(d, "index.json"))
+    finally:
+        gc.enable()
+
+
+class LazyBodies:
+    """mapping fn-name -> body dict, parsed on demand from bodies.jsonl"""
+
+    def __init__(self, path, offsets):
+        self.path = path
+        self.offsets = offsets
+        self.cache = {}
+        self.fh = open(path, "rb")
+
+    def __contains__(self, k):
+        return k in self.offsets
+
+    def __iter__(self):
+        return iter(self.offsets)
+
+    def __len__(self):
+        return len(self.offsets)
+
+    def keys(self):
+        return self.offsets.keys()
+
+    def get(self, k, default=None):
+        if k not in self.offsets:
+            return default
+        return self[k]
+
+    def __getitem__(self, k):
+        b = self.cache.get(k)
+        if b is None:
+            off, ln = self.offsets[k]
+            self.fh.seek(off)
+            b = json.loads(self.fh.read(ln))
+            self.cache[k] = b
+        return b
+
+
 def load_facts(d):
-    """Load bodies (dict fn->body), meta, syn. Uses a pickle next to the json."""
-    pk = os.path.join(d, "facts.pickle")
-    if os.path.exists(pk):
-        try:
-            with open(pk, "rb") as fh:
-                return pickle.load(fh)
-        except Exception:
-            pass
-    bodies = {}
-    with open(os.path.join(d, "bodies.jsonl")) as fh:
-        for line in fh:
-            b = json.loads(line)
-            bodies[b["fn"]] = b
+    """Lazy facts: index + meta + syntax tables; bodies parsed on demand."""
+    ip = os.path.join(d, "index.json")
+    if not os.path.exists(ip):
+        build_index(d)
+    with open(ip) as fh:
+        idx = json.load(fh)
     with open(os.path.join(d, "meta.json")) as fh:
         meta = json.load(fh)
     syn = None
@@ -149,14 +224,8 @@ def load_facts(d):
     if os.path.exists(sp):
         with open(sp) as fh:
             syn = json.load(fh)
-    facts = {"bodies": bodies, "meta": meta, "syn": syn}
-    try:
-        with open(pk + ".tmp", "wb") as fh:
-            pickle.dump(facts, fh, protocol=pickle.HIGHEST_PROTOCOL)
-        os.rename(pk + ".tmp", pk)
-    except Exception:
-        pass
-    return facts
+    bodies = LazyBodies(os.path.join(d, "bodies.jsonl"), idx["offsets"])
+    return {"bodies": bodies, "meta": meta, "syn": syn, "index": idx}
 
 
 if __name__ == "__main__":
